@@ -36,42 +36,44 @@ type vExpRec struct {
 }
 
 type vSession struct {
-	dir      string
-	pattern  string
-	types    [3]bool                // ljh22, ljh3, off
-	expected map[string][]*DataRecord // "<ch>/<type>" -> records accepted while active and unpaused
-	extTrig  []int64
-	drops    [][2]int
-	labels   []string // state-file labels in order, including START and STOP
-	stopped  bool
+	dir        string
+	pattern    string
+	types      [3]bool                  // ljh22, ljh3, off
+	expected   map[string][]*DataRecord // "<ch>/<type>" -> records accepted while active and unpaused
+	extTrig    []int64
+	drops      [][2]int
+	labels     []string // state-file labels in order, including START and STOP
+	stateFault bool     // the STOP label could not be written (injected fault)
+	stopped    bool
 }
 
 type vWriteRun struct {
-	c       *vCase
-	f       *vFeed
-	nchan   int
-	npre    int
-	nsamp   int
-	hasProj []bool
-	projP   []*mat.Dense
-	projB   []*mat.Dense
-	model   vWModel
-	base    string
-	cur     *vSession
-	done    []*vSession
-	lastDir string
-	extTick, dropTick chan time.Time // hand-fired periodic ticks
-	gapMode bool            // base path pre-populated with run directories (with holes) of today
-	preDirs map[string]bool // directories that existed before the request being applied
-	hist    []string
-	blockNo int
-	multi   bool // several records per channel and block
+	c                 *vCase
+	f                 *vFeed
+	nchan             int
+	npre              int
+	nsamp             int
+	hasProj           []bool
+	projP             []*mat.Dense
+	projB             []*mat.Dense
+	model             vWModel
+	base              string
+	cur               *vSession
+	done              []*vSession
+	lastDir           string
+	extTick, dropTick chan time.Time  // hand-fired periodic ticks
+	stopFaultArmed    bool            // break the experiment-state file just before the next STOP of an active session
+	gapMode           bool            // base path pre-populated with run directories (with holes) of today
+	preDirs           map[string]bool // directories that existed before the request being applied
+	hist              []string
+	blockNo           int
+	multi             bool // several records per channel and block
 }
 
 // prepare sets up identity/geometry, triggers and projectors.
 func vNewWriteRun(c *vCase, variety bool) *vWriteRun {
 	r := c.R
-	w := &vWriteRun{c: c, multi: variety}
+	w := &vWriteRun{c: c, multi: variety, stopFaultArmed: c.Idx%5 == 3}
 	w.nchan = 2 + r.Intn(4)
 	w.npre = 4 + r.Intn(12)
 	w.nsamp = w.npre + 4 + r.Intn(24)
@@ -336,8 +338,24 @@ func (w *vWriteRun) request(req string, l22, l3, of bool) bool {
 	if kind == "START" {
 		desc = fmt.Sprintf("%s(ljh22=%v,ljh3=%v,off=%v)", req, l22, l3, of)
 	}
+	faulted := false
+	if kind == "STOP" && w.model.active && w.stopFaultArmed && ds.writingState.experimentStateFile != nil {
+		// I/O fault at STOP: the experiment-state file has gone bad under the server, so the STOP label cannot be
+		// written. Whatever STOP replies, afterwards nothing may be active or open, and a new START must work.
+		ds.writingState.experimentStateFile.Close()
+		w.stopFaultArmed = false
+		faulted = true
+		desc += "[state file broken]"
+		c.Cov("stops_with_io_fault", 1)
+	}
 	w.hist = append(w.hist, desc)
 	err := ds.WriteControl(cfg)
+	if faulted {
+		if err != nil {
+			c.Cov("stops_with_io_fault_reported", 1)
+		}
+		err = nil
+	}
 	if (err != nil) != wantErr {
 		c.Violate("c06:reply-class", "request %q: got error %v, the state machine says error=%v (history %v)", desc, err, wantErr, w.hist)
 		return false
@@ -403,6 +421,7 @@ func (w *vWriteRun) request(req string, l22, l3, of bool) bool {
 		if w.cur != nil {
 			w.cur.labels = append(w.cur.labels, "STOP")
 			w.cur.stopped = true
+			w.cur.stateFault = faulted
 			w.done = append(w.done, w.cur)
 			s := w.cur
 			w.cur = nil
@@ -687,6 +706,9 @@ func (w *vWriteRun) checkSideFiles(s *vSession, fname func(string, string) strin
 		}
 		prevT = t
 		got = append(got, l[k+2:])
+	}
+	if s.stateFault && fmt.Sprint(got) == fmt.Sprint(s.labels[:len(s.labels)-1]) {
+		got = append(got, "STOP") // the label that could not be written
 	}
 	if fmt.Sprint(got) != fmt.Sprint(s.labels) {
 		c.Violate("c20:state-file-labels", "%s holds labels %v, the accepted requests of the session were %v (history %v)", sfn, got, s.labels, w.hist)
@@ -1054,11 +1076,11 @@ func vRunWriterAPI(c *vCase) bool {
 	}
 	wo.WriteHeader()
 	type reco struct {
-		a, bq      int32
-		fr, ts     int64
-		p, d, s    float32
-		co         []float32
-		ok         bool
+		a, bq   int32
+		fr, ts  int64
+		p, d, s float32
+		co      []float32
+		ok      bool
 	}
 	var ro []reco
 	f32 := func() float32 {
@@ -1137,7 +1159,7 @@ func init() {
 			vRunWriteHistory(c, "C05")
 		},
 		Meta: vMeta{Level: "exploration",
-			Rule: "case = (a) the LJH2.2/LJH3/OFF writers' public API with record lengths 1..5000, extreme frame counts/timestamps/floats and random flushes, and (b) an AnySource with random geometry/identity/sub-frame parameters, projectors on a random subset, driven through START(any type subset)/PAUSE/UNPAUSE/STOP histories interleaved with blocks that yield exactly one record per channel; after every STOP each file is decoded by an independent decoder and compared with the channel's true parameters and the records accepted while active and unpaused (order, samples/coefficients, frame/sub-frame count, timestamp, size = header + whole records); non-trivial = at least one finished session",
+			Rule:        "case = (a) the LJH2.2/LJH3/OFF writers' public API with record lengths 1..5000, extreme frame counts/timestamps/floats and random flushes, and (b) an AnySource with random geometry/identity/sub-frame parameters, projectors on a random subset, driven through START(any type subset)/PAUSE/UNPAUSE/STOP histories interleaved with blocks that yield exactly one record per channel; after every STOP each file is decoded by an independent decoder and compared with the channel's true parameters and the records accepted while active and unpaused (order, samples/coefficients, frame/sub-frame count, timestamp, size = header + whole records); non-trivial = at least one finished session",
 			Assumptions: []string{"LJH3 first-rising field may equal presamples or presamples+1 (the format leaves the indexing open)", "LJH 2.2 readers ignore unknown keys; the word-size key's spelling is not compared"},
 			Guards:      guardsFiles},
 	})
@@ -1150,7 +1172,7 @@ func init() {
 		},
 		Run: func(c *vCase) { vRunWriteHistory(c, "C06") },
 		Meta: vMeta{Level: "exploration",
-			Rule: "case = history of 5-25 steps biased to requests (START over all 7 type subsets and none, STOP, PAUSE, UNPAUSE, 'UNPAUSE label', malformed UNPAUSE, garbage; redundant and illegal orders) interleaved with blocks yielding one record per channel; after every request the reply class and the reported state are compared with an executable state machine, a successful START must create the next numbered directory, after every STOP the files are decoded and must hold exactly the records published while the model was active and unpaused for every enabled type and eligible channel, and no descriptor below the directory may stay open; non-trivial = at least one finished session",
+			Rule:        "case = history of 5-25 steps biased to requests (START over all 7 type subsets and none, STOP, PAUSE, UNPAUSE, 'UNPAUSE label', malformed UNPAUSE, garbage; redundant and illegal orders) interleaved with blocks yielding one record per channel; after every request the reply class and the reported state are compared with an executable state machine, a successful START must create the next numbered directory, after every STOP the files are decoded and must hold exactly the records published while the model was active and unpaused for every enabled type and eligible channel, and no descriptor below the directory may stay open; non-trivial = at least one finished session",
 			Assumptions: []string{"PAUSE/UNPAUSE while not active are accepted requests that only set the flag (as the code's reply shows); START clears it"},
 			Guards: map[string]map[string]int{
 				"quick":    {"sessions": 300, "state_checks": 2000, "starts_with_preexisting_directories": 80, "rejected_START": 100, "rejected_UNPAUSE": 50, "rejected_garbage": 50, "accepted_PAUSE": 300, "accepted_STOP": 300, "blocks_while_paused": 100, "blocks_while_inactive": 300, "file_records": 1000},
@@ -1166,7 +1188,7 @@ func init() {
 		},
 		Run: func(c *vCase) { vRunWriteHistory(c, "C20") },
 		Meta: vMeta{Level: "exploration",
-			Rule: "case = history of 5-60 steps mixing blocks that carry 0-50 external-trigger counts (incl. negative/huge) and drop counts with START/STOP/PAUSE/UNPAUSE/'UNPAUSE label'/state-label requests, several START/STOP cycles, blocks before the first START and after the last STOP; after every STOP the three side files are parsed and compared with the harness's event log (counts delivered while active, one line per block with drops while active, START, accepted labels, STOP with monotone timestamps); nothing may stay open; non-trivial = at least one finished session",
+			Rule:        "case = history of 5-60 steps mixing blocks that carry 0-50 external-trigger counts (incl. negative/huge) and drop counts with START/STOP/PAUSE/UNPAUSE/'UNPAUSE label'/state-label requests, several START/STOP cycles, blocks before the first START and after the last STOP; after every STOP the three side files are parsed and compared with the harness's event log (counts delivered while active, one line per block with drops while active, START, accepted labels, STOP with monotone timestamps); nothing may stay open; non-trivial = at least one finished session",
 			Assumptions: []string{"events delivered while writing is not active must appear nowhere; pause does not suspend the run log (the statement says 'while writing is active')"},
 			Guards: map[string]map[string]int{
 				"quick":    {"exttrig_bursts": 100, "sessions": 300, "state_files": 300, "state_lines": 1500, "exttrig_files": 150, "exttrig_counts": 2000, "drop_files": 100, "drop_lines": 200, "labels_accepted": 300, "labels_rejected": 100},
